@@ -2,7 +2,8 @@
     trial sequence of the reference semantics.  Proof file. *)
 From Coq Require Import ZArith List Bool Arith Lia.
 From SP Require Import Design.Flat Design.Layout Design.Sem Comb.CombModel Comb.CombSpec Random.Enum Random.Frag
-  Random.FragSem Random.RunLemmas Random.Frag0Enum Random.Frag0Decode Random.Frag0Sem.
+  Random.FragSem Random.RunLemmas Random.FragPerm Random.Frag0Enum Random.Frag0Decode Random.Frag0Sem.
+From SP Require Comb.PrefixProofs.
 Import ListNotations.
 Open Scope nat_scope.
 Set Default Proof Using "All".
@@ -52,12 +53,14 @@ Qed.
 
 Section F0V.
 Variable fb : flat.
-Hypothesis HF : frag1 fb = true.
+Hypothesis HF : frag2 fb = true.
 Hypothesis Hq : 0 < f0_q fb.
 
 Local Notation c := (the_crossing fb).
 Local Notation n := (length (fl_design fb)).
 Local Notation q := (f0_q fb).
+Local Notation C := (f0_C fb).
+Local Notation cws := (f0_cws fb).
 Local Notation T := (fl_trials fb).
 Local Notation lo := (f0_leftover fb).
 Local Notation prod := (f0_cprod fb).
@@ -66,7 +69,7 @@ Local Notation S0 := (code_sem fb).
 
 (** all rounds of a key, each with its number of trials *)
 Definition all_rounds (k : key) : list (nat * comp) :=
-  map (fun cp => (q, cp)) (k_rounds k) ++ match k_left k with Some cp => [(lo, cp)] | None => [] end.
+  map (fun cp => (C, cp)) (k_rounds k) ++ match k_left k with Some cp => [(lo, cp)] | None => [] end.
 
 Lemma decoded_row_rounds k g :
   decoded_row fb k g = flat_map (fun rc => round_row fb (fst rc) (snd rc) g) (all_rounds k).
@@ -77,24 +80,25 @@ Proof.
 Qed.
 
 Lemma all_rounds_ok k : key_ok fb k -> forall rc, In rc (all_rounds k) ->
-  fst rc <= q /\ 0 < fst rc /\ comp_ok fb (fst rc) (snd rc).
+  fst rc <= C /\ 0 < fst rc /\ comp_ok fb (fst rc) (snd rc).
 Proof.
   intros (_ & _ & Hrounds & Hleft) rc Hin. unfold all_rounds in Hin. apply in_app_iff in Hin.
+  pose proof (f0_C_pos fb HF) as HC.
   destruct Hin as [Hin | Hin].
   - apply in_map_iff in Hin. destruct Hin as [cp [E Hcp]]. subst rc. cbn [fst snd].
-    rewrite Forall_forall in Hrounds. repeat split; [lia | lia | apply Hrounds; exact Hcp].
+    rewrite Forall_forall in Hrounds. split; [lia|]. split; [lia | apply Hrounds; exact Hcp].
   - destruct (k_left k) as [cp|]; [|destruct Hin]. destruct Hin as [E | []]. subst rc. cbn [fst snd].
-    destruct Hleft as [Hne Hok]. pose proof (f0_leftover_lt fb HF Hq). repeat split; [lia | lia | exact Hok].
+    destruct Hleft as [Hne Hok]. pose proof (f0_leftover_lt fb HF). split; [lia|]. split; [lia | exact Hok].
 Qed.
 
 Lemma sum_rounds k : key_ok fb k -> fold_right (fun rc acc => fst rc + acc) 0 (all_rounds k) = T.
 Proof.
   intros (_ & Hlen & _ & Hleft). unfold all_rounds. rewrite fold_right_app.
-  assert (G : forall (l : list comp) acc, fold_right (fun (rc : nat * comp) a => fst rc + a) acc (map (fun cp => (q, cp)) l)
-              = length l * q + acc).
+  assert (G : forall (l : list comp) acc, fold_right (fun (rc : nat * comp) a => fst rc + a) acc (map (fun cp => (C, cp)) l)
+              = length l * C + acc).
   { induction l as [|x t IH]; intros acc; cbn [map fold_right length fst]; [reflexivity|]. rewrite IH. lia. }
   rewrite G, Hlen. unfold f0_rounds.
-  pose proof (Nat.div_mod_eq T q) as Hdm. fold lo in Hdm.
+  pose proof (Nat.div_mod_eq T C) as Hdm. fold lo in Hdm.
   destruct (k_left k) as [cp|]; cbn [fold_right fst].
   - unfold f0_leftover in *. lia.
   - unfold f0_leftover in *. lia.
@@ -122,12 +126,12 @@ Proof.
   rewrite map_nth in H. rewrite (nth_error_nth _ _ 0 Hi) in H. unfold all_levels in H. apply in_seq in H. lia.
 Qed.
 
-Lemma round_row_cells tc cp g : tc <= q -> comp_ok fb tc cp -> g < n ->
+Lemma round_row_cells tc cp g : tc <= C -> comp_ok fb tc cp -> g < n ->
   Forall (fun cell => exists l, cell = Some l /\ l < nlevels fb g /\ ~ In (FExclude g l) (fl_constraints fb)) (round_row fb tc cp g).
 Proof.
   intros Hle Hok Hg. apply (K_In fb HF Hq) in Hg. apply in_app_iff in Hg.
-  destruct cp as [[c0 c1] c2]. pose proof Hok as (Hc0 & _ & Hc2).
-  destruct (perm_of_spec fb HF Hq tc c0 Hle Hc0) as (_ & Hpl & [_ Hpb] & _).
+  destruct cp as [[c0 c1] c2]. pose proof Hok as (Hc0 & Hdef & _ & Hc2).
+  destruct (perm_of_spec fb HF Hq tc c0 Hle Hc0 Hdef) as (_ & Hpl & Hpb & _).
   destruct Hg as [Hg | Hg].
   - apply In_nth_error in Hg. destruct Hg as [i Hi].
     rewrite (round_row_crossed fb HF Hq tc (c0, c1, c2) i g Hle Hok Hi). cbn [fst].
@@ -189,40 +193,16 @@ Lemma prod_nodup : NoDup prod.
 Proof. apply (f0_cprod_nodup fb HF). Qed.
 
 Lemma count_in_block (perm : list Z) j :
-  NoDup perm -> Forall (fun x => (0 <= x < Z.of_nat q)%Z) perm -> j < q ->
-  count_in (nth j prod []) (map (fun p => nth (Z.to_nat p) prod []) perm) <= 1 /\
-  (In (Z.of_nat j) perm -> count_in (nth j prod []) (map (fun p => nth (Z.to_nat p) prod []) perm) = 1).
+  Forall (fun x => (0 <= x < Z.of_nat q)%Z) perm -> j < q ->
+  Z.of_nat (count_in (nth j prod []) (map (fun p => nth (Z.to_nat p) prod []) perm)) = count_sym perm (Z.of_nat j).
 Proof.
-  intros Hnd Hb Hj. unfold count_in.
-  assert (Hf : forall l : list Z, filter (nlist_eqb (nth j prod [])) (map (fun p => nth (Z.to_nat p) prod []) l) =
-               map (fun p => nth (Z.to_nat p) prod []) (filter (fun p => nlist_eqb (nth j prod []) (nth (Z.to_nat p) prod [])) l)).
-  { induction l as [|x t IH]; [reflexivity|]. cbn [map filter].
-    destruct (nlist_eqb (nth j prod []) (nth (Z.to_nat x) prod [])); cbn [map]; rewrite IH; reflexivity. }
-  rewrite Hf, map_length. rewrite Forall_forall in Hb.
-  assert (Hiff : forall p, In p perm -> nlist_eqb (nth j prod []) (nth (Z.to_nat p) prod []) = true -> p = Z.of_nat j).
-  { intros p Hp E. apply nlist_eqb_eq in E. specialize (Hb p Hp).
-    apply (proj1 (NoDup_nth prod []) prod_nodup) in E; [lia | exact Hj | fold q; lia]. }
-  split.
-  - apply filter_length_le1; [exact Hnd|]. intros x y Hx Hy Ex Ey. rewrite (Hiff x Hx Ex), (Hiff y Hy Ey). reflexivity.
-  - intros Hin. apply Nat.le_antisymm.
-    + apply filter_length_le1; [exact Hnd|]. intros x y Hx Hy Ex Ey. rewrite (Hiff x Hx Ex), (Hiff y Hy Ey). reflexivity.
-    + apply (filter_length_ge1 _ _ (Z.of_nat j) Hin). rewrite Nat2Z.id. apply nlist_eqb_eq. reflexivity.
-Qed.
-
-Lemma perm_surjective (perm : list Z) j :
-  NoDup perm -> Forall (fun x => (0 <= x < Z.of_nat q)%Z) perm -> length perm = q -> j < q -> In (Z.of_nat j) perm.
-Proof.
-  intros Hnd Hb Hl Hj. rewrite Forall_forall in Hb.
-  assert (Hnd' : NoDup (map Z.to_nat perm)).
-  { clear Hl. induction Hnd as [|x l Hx Hnd IH]; cbn; constructor.
-    - intros Hin. apply in_map_iff in Hin. destruct Hin as [y [E Hy]].
-      assert (x = y) by (pose proof (Hb x (or_introl eq_refl)); pose proof (Hb y (or_intror Hy)); lia). subst. contradiction.
-    - apply IH. intros y Hy. apply Hb. right. exact Hy. }
-  assert (Hincl : incl (seq 0 q) (map Z.to_nat perm)).
-  { apply NoDup_length_incl; [exact Hnd' | rewrite map_length, seq_length; lia|].
-    intros x Hx. apply in_map_iff in Hx. destruct Hx as [y [E Hy]]. subst x. apply in_seq. specialize (Hb y Hy). lia. }
-  specialize (Hincl j ltac:(apply in_seq; lia)). apply in_map_iff in Hincl. destruct Hincl as [y [E Hy]].
-  replace (Z.of_nat j) with y by (specialize (Hb y Hy); lia). exact Hy.
+  intros Hb Hj. unfold count_in. induction Hb as [|x w Hx Hw IH]; [reflexivity|].
+  cbn [map filter]. rewrite PrefixProofs.count_sym_cons. rewrite <- IH.
+  destruct (nlist_eqb (nth j prod []) (nth (Z.to_nat x) prod [])) eqn:E.
+  - apply nlist_eqb_eq in E. apply (proj1 (NoDup_nth prod []) prod_nodup) in E; [|exact Hj | fold q; lia].
+    replace (x =? Z.of_nat j)%Z with true by (symmetry; apply Z.eqb_eq; lia). cbn [length]. lia.
+  - replace (x =? Z.of_nat j)%Z with false; [lia|]. symmetry. apply Z.eqb_neq. intros Ex. subst x.
+    rewrite Nat2Z.id in E. rewrite (proj2 (nlist_eqb_eq _ _) eq_refl) in E. discriminate.
 Qed.
 
 (** * The candidate as a [tseq] *)
@@ -267,8 +247,8 @@ Lemma round_row_crossed_combos rc i g : In rc (all_rounds k) -> nth_error c i = 
 Proof.
   intros Hrc Hi. destruct (all_rounds_ok k Hk rc Hrc) as (Hle & _ & Hok).
   rewrite (round_row_crossed fb HF Hq _ _ i g Hle Hok Hi). unfold round_combos. rewrite map_map.
-  destruct (snd rc) as [[c0 c1] c2] eqn:Ecp. cbn [fst]. destruct Hok as (Hc0 & _).
-  destruct (perm_of_spec fb HF Hq (fst rc) c0 Hle Hc0) as (_ & Hpl & _).
+  destruct (snd rc) as [[c0 c1] c2] eqn:Ecp. cbn [fst]. destruct Hok as (Hc0 & Hdef & _).
+  destruct (perm_of_spec fb HF Hq (fst rc) c0 Hle Hc0 Hdef) as (_ & Hpl & _).
   rewrite (map_via_seq _ (perm_of fb (fst rc) c0) 0%Z), Hpl. reflexivity.
 Qed.
 
@@ -283,8 +263,8 @@ Qed.
 Lemma round_combos_length rc : In rc (all_rounds k) -> length (round_combos rc) = fst rc.
 Proof.
   intros Hrc. destruct (all_rounds_ok k Hk rc Hrc) as (Hle & _ & Hok).
-  unfold round_combos. rewrite map_length. destruct (snd rc) as [[c0 c1] c2]. cbn [fst]. destruct Hok as (Hc0 & _).
-  apply (perm_of_spec fb HF Hq (fst rc) c0 Hle Hc0).
+  unfold round_combos. rewrite map_length. destruct (snd rc) as [[c0 c1] c2]. cbn [fst]. destruct Hok as (Hc0 & Hdef & _).
+  apply (perm_of_spec fb HF Hq (fst rc) c0 Hle Hc0 Hdef).
 Qed.
 
 Lemma all_combos_length : length all_combos = T.
@@ -297,8 +277,8 @@ Lemma round_combos_elem rc combo : In rc (all_rounds k) -> In combo (round_combo
 Proof.
   intros Hrc Hin. destruct (all_rounds_ok k Hk rc Hrc) as (Hle & _ & Hok).
   unfold round_combos in Hin. apply in_map_iff in Hin. destruct Hin as [p [E Hp]]. subst combo.
-  destruct (snd rc) as [[c0 c1] c2]. cbn [fst] in Hp. destruct Hok as (Hc0 & _).
-  destruct (perm_of_spec fb HF Hq (fst rc) c0 Hle Hc0) as (_ & _ & [_ Hpb] & _).
+  destruct (snd rc) as [[c0 c1] c2]. cbn [fst] in Hp. destruct Hok as (Hc0 & Hdef & _).
+  destruct (perm_of_spec fb HF Hq (fst rc) c0 Hle Hc0 Hdef) as (_ & _ & Hpb & _).
   rewrite Forall_forall in Hpb. specialize (Hpb p Hp). apply nth_In. fold q. lia.
 Qed.
 
@@ -328,18 +308,25 @@ Qed.
 
 
 Lemma round_block_ok rc : In rc (all_rounds k) ->
-  block_ok (f0_crossing fb) (fst rc =? q) (round_combos rc).
+  block_ok (f0_crossing fb) (fst rc =? C) (round_combos rc).
 Proof.
   intros Hrc. destruct (all_rounds_ok k Hk rc Hrc) as (Hle & _ & Hok).
-  unfold round_combos. destruct (snd rc) as [[c0 c1] c2] eqn:Ecp. cbn [fst]. destruct Hok as (Hc0 & _).
-  destruct (perm_of_spec fb HF Hq (fst rc) c0 Hle Hc0) as (_ & Hpl & [Hpnd Hpb] & _).
+  unfold round_combos. destruct (snd rc) as [[c0 c1] c2] eqn:Ecp. cbn [fst]. destruct Hok as (Hc0 & Hdef & _).
+  destruct (perm_of_spec fb HF Hq (fst rc) c0 Hle Hc0 Hdef) as (Hbw & Hpl & Hpb & _).
   split.
   - intros cm Hcm. cbn [f0_crossing c_mult] in Hcm. apply in_map_iff in Hcm. destruct Hcm as [ls [E Hls]]. subst cm.
-    cbn [fst snd]. apply In_nth with (d := []) in Hls. destruct Hls as [j [Hj Ej]]. subst ls.
-    destruct (count_in_block (perm_of fb (fst rc) c0) j Hpnd Hpb Hj) as [Hle1 Heq1].
-    destruct (fst rc =? q) eqn:E; [|exact Hle1]. apply Nat.eqb_eq in E.
-    apply Heq1. apply perm_surjective; [exact Hpnd | exact Hpb | lia | exact Hj].
-  - intros combo Hin. exists (combo, 1). split; [|reflexivity]. cbn [f0_crossing c_mult].
+    cbn [fst snd]. apply In_nth with (d := []) in Hls. destruct Hls as [j [Hj Ej]]. subst ls. fold q in Hj.
+    pose proof (count_in_block (perm_of fb (fst rc) c0) j Hpb Hj) as Hcnt.
+    pose proof (f0_cws_nth fb HF j Hj) as Hnth.
+    destruct (fst rc =? C) eqn:E.
+    + apply Nat.eqb_eq in E.
+      assert (Hbw' : bounded_word cws (Z.of_nat (p_C cws)) (perm_of fb (fst rc) c0))
+        by (rewrite (f0_p_C fb HF), <- E; exact Hbw).
+      pose proof (bw_full cws (f0_cws_nonneg fb HF) _ Hbw' j ltac:(rewrite (f0_cws_length fb HF); exact Hj)) as Hfull.
+      lia.
+    + destruct (bw_parts cws _ _ Hbw) as (_ & _ & Hc).
+      specialize (Hc j ltac:(rewrite (f0_cws_length fb HF); exact Hj)). lia.
+  - intros combo Hin. exists (combo, f0_cw fb combo * the_weight fb). split; [|reflexivity]. cbn [f0_crossing c_mult].
     apply in_map_iff. exists combo. split; [reflexivity|].
     apply (round_combos_elem rc combo Hrc). unfold round_combos. rewrite Ecp. exact Hin.
 Qed.
@@ -347,30 +334,31 @@ Qed.
 Lemma f0_crossing_ok : crossing_ok S0 s (f0_crossing fb) = true.
 Proof.
   unfold crossing_ok. cbn [f0_crossing c_chunk c_first].
-  replace (0 <? q) with true by (symmetry; apply Nat.ltb_lt; exact Hq). cbn [andb].
+  pose proof (f0_C_pos fb HF) as HC.
+  replace (0 <? C) with true by (symmetry; apply Nat.ltb_lt; exact HC). cbn [andb].
   pose proof Hk as (_ & Hlen & Hrounds & Hleft).
   apply (chunks_ok_rounds S0 s (f0_crossing fb) all_combos all_combos_length
            (fun t Ht => combo_at_f0 t Ht)
-           (map (fun cp => round_combos (q, cp)) (k_rounds k))
+           (map (fun cp => round_combos (C, cp)) (k_rounds k))
            (match k_left k with Some cp => round_combos (lo, cp) | None => [] end)).
-  - exact Hq.
+  - exact HC.
   - unfold all_combos, all_rounds. rewrite flat_map_app. f_equal.
     + rewrite flat_map_concat_map, map_map. reflexivity.
     + destruct (k_left k); [cbn; rewrite app_nil_r|]; reflexivity.
   - intros blk Hblk. apply in_map_iff in Hblk. destruct Hblk as [cp [E Hcp]]. subst blk.
-    assert (Hrc : In (q, cp) (all_rounds k)).
+    assert (Hrc : In (C, cp) (all_rounds k)).
     { unfold all_rounds. apply in_app_iff. left. apply in_map_iff. exists cp. split; [reflexivity | exact Hcp]. }
     split; [apply (round_combos_length _ Hrc)|].
     pose proof (round_block_ok _ Hrc) as H. cbn [fst] in H. rewrite Nat.eqb_refl in H. exact H.
-  - cbn [f0_crossing c_chunk]. destruct (k_left k) as [cp|] eqn:El; [|cbn; exact Hq].
+  - cbn [f0_crossing c_chunk]. destruct (k_left k) as [cp|] eqn:El; [|cbn; exact HC].
     assert (Hrc : In (lo, cp) (all_rounds k)).
     { unfold all_rounds. apply in_app_iff. right. rewrite El. left. reflexivity. }
-    rewrite (round_combos_length _ Hrc). cbn [fst]. apply (f0_leftover_lt fb HF Hq).
+    rewrite (round_combos_length _ Hrc). cbn [fst]. apply (f0_leftover_lt fb HF).
   - intros Hne. destruct (k_left k) as [cp|] eqn:El; [|contradiction].
     assert (Hrc : In (lo, cp) (all_rounds k)).
     { unfold all_rounds. apply in_app_iff. right. rewrite El. left. reflexivity. }
     pose proof (round_block_ok _ Hrc) as H. cbn [fst] in H.
-    replace (lo =? q) with false in H by (symmetry; apply Nat.eqb_neq; pose proof (f0_leftover_lt fb HF Hq); lia).
+    replace (lo =? C) with false in H by (symmetry; apply Nat.eqb_neq; pose proof (f0_leftover_lt fb HF); lia).
     exact H.
 Qed.
 
